@@ -1114,3 +1114,36 @@ func init() {
 		WallBudget:  shapeBudget,
 	})
 }
+
+func init() {
+	registerProp(&PropSpec{
+		ID: "C20",
+		Units: func(tier string, seed int64, sh *Shared) []Unit {
+			var units []Unit
+			allFlags := []string{"", "v", "c", "t", "vc", "vt", "ct", "vct"}
+			for _, typ := range []string{"bool", "num"} {
+				for _, f := range allFlags {
+					units = append(units, Unit{"VerifC20", []string{"0", typ, f}})
+				}
+				l1 := []string{"", "vct"}
+				if tier == "thorough" {
+					l1 = allFlags
+				}
+				for _, f := range l1 {
+					units = append(units, Unit{"VerifC20", []string{"1", typ, f}})
+				}
+			}
+			return units
+		},
+		Reach: []string{"generated", "bare-atom", "definite", "dne"},
+		Bounds: func(tier string) map[string]interface{} {
+			return map[string]interface{}{"levels": "0 and 1, exhaustively over all values (*rand.Rand).Intn can return (nondeterministic stub); level 1 = one operator/if over leaf children",
+				"children": "variables carry arbitrary int64 / bool values (solver variables) or DNE, numeric literals are arbitrary values in their range, so at level 1 the operands range over every possible child result; the code computing Res from the children's Res is the same at every level ≥ 1",
+				"options":  "both result types × {variables, conditions, TryEval/DNE} quick: none and all at level 1 (every subset at level 0); thorough: every subset at level 1"}
+		},
+		Rule:        "one unit per (level, result type, option set); a state is one symbolic path through the generator, Compile and Eval/TryEval plus the reference evaluator",
+		Assumptions: []string{"levels ≥ 2 are not run: their sub-expressions are arbitrary children of the level-1 step; that a sub-expression can be replaced by a variable bound to its value without changing the result is compositionality of evaluation (C01/C05)",
+			"(*rand.Rand).Intn(n) returns an arbitrary value in [0,n) (over-approximates every seed); numeric literal texts produced by strconv.Itoa are abstracted as constants of the same value"},
+		WallBudget: shapeBudget,
+	})
+}
